@@ -243,8 +243,14 @@ func TestC19_P_FixtureGenerators(t *testing.T) {
 				}))
 			case "GenerateDirectory":
 				sharded := rapid.Bool().Draw(t, "sharded")
-				opt = fmt.Sprintf("sharded=%v", sharded)
-				de = testutil.GenerateDirectory(rec, ls, r, dirSize, sharded)
+				// ... or its exported worker with a start path of the caller's choosing (what it is handed for nested directories)
+				from := rapid.SampledFrom([]string{"", "", "/sub", "/a/b c", "/example.org", "/v1.0/data.d"}).Draw(t, "fromDir")
+				opt = fmt.Sprintf("sharded=%v from=%q", sharded, from)
+				if from == "" {
+					de = testutil.GenerateDirectory(rec, ls, r, dirSize, sharded)
+				} else {
+					de = testutil.GenerateDirectoryFrom(rec, ls, r, dirSize, from, sharded)
+				}
 			case "BuildDirectory":
 				sharded := rapid.Bool().Draw(t, "sharded")
 				opt = fmt.Sprintf("sharded=%v", sharded)
@@ -418,7 +424,6 @@ func TestC19_P_LargeFileBatches(t *testing.T) {
 		ev.Sample(map[string]any{"seed": seed, "sizes": sizes})
 	})
 }
-
 
 // F18 (fixed): BuildDirectory sorted and kept the caller's slice; F19 (fixed): WrapContent's decoy siblings could take the
 // name of a wrapped path segment.
